@@ -5,6 +5,8 @@ import (
 	"crypto/ecdh"
 	"crypto/ed25519"
 	"crypto/sha256"
+	"github.com/aperturerobotics/bifrost/crypto"
+	"github.com/aperturerobotics/bifrost/peer"
 	"math/big"
 	"sync"
 	"testing"
@@ -206,6 +208,14 @@ func checkC14(c c14Case) (o vstat.Outcome) {
 		}
 		if ok && len(out) != 32 {
 			return vstat.Viol("bad-output", "converted key has %d bytes", len(out))
+		}
+		if refused {
+			// the callers of the conversion refuse as well: encrypting to such a key is an error, not an empty result
+			if pk, uerr := crypto.UnmarshalEd25519PublicKey(in); uerr == nil {
+				if ct, eerr := peer.EncryptToPubKey(pk, "c14", []byte("m")); eerr == nil {
+					return vstat.Viol("encrypt-to-unconvertible-key", "EncryptToPubKey to %x (which the conversion refuses) returned %d bytes and no error", in, len(ct))
+				}
+			}
 		}
 		if decodable {
 			if lo := extra25519.IsEdLowOrder(in); lo != lowOrder {
